@@ -345,12 +345,33 @@ def assigned_names(nodes):
             elif isinstance(n, ast.Subscript) and isinstance(n.ctx, (ast.Store, ast.Del)):
                 if isinstance(n.value, ast.Name):
                     mutated.add(n.value.id)
+                else:
+                    _mark_reached(n.value, fields, mutated)
             elif isinstance(n, ast.Call) and isinstance(n.func, ast.Attribute) and n.func.attr in MUT:
                 if isinstance(n.func.value, ast.Name):
                     mutated.add(n.func.value.id)
                 elif isinstance(n.func.value, ast.Attribute) and isinstance(n.func.value.value, ast.Name):
                     fields.add((n.func.value.value.id, n.func.value.attr))
+                else:
+                    # x[k].append(..), x.a.b.append(..), x.a[k].append(..): an object reached through x is mutated
+                    _mark_reached(n.func.value, fields, mutated)
     return names, fields, mutated
+
+
+def _mark_reached(e, fields, mutated):
+    """e is an expression whose value is mutated in place (or has an item stored into it) and is not a plain name:
+    havoc the local it is reached through - the whole local for x[...]..., the field x.a for x.a[...] / x.a.b..."""
+    chain = []
+    while isinstance(e, (ast.Subscript, ast.Attribute)):
+        chain.append(e)
+        e = e.value
+    if not isinstance(e, ast.Name):
+        return
+    first = chain[-1] if chain else None
+    if isinstance(first, ast.Attribute):
+        fields.add((e.id, first.attr))
+    else:
+        mutated.add(e.id)
 
 
 # --------------------------------------------------------------------------- the path executor
